@@ -63,30 +63,27 @@ def side_violation(c, key, rec):
 
 
 def reachable_functions(fmt_text):
-    """Independent call-graph reachability over the canonically printed text (every function named):
-    roots are exported functions, the start function and table elements."""
+    """Independent call-graph reachability over the printed text (every function named): roots are exported
+    functions, the start function and table elements.  Tolerant of indentation and of folded call forms."""
     funcs, cur = {}, None
     roots = set()
     for line in fmt_text.splitlines():
-        m = re.match(r"\t\(func \$(\S+?)[\s)]", line + " ")
-        if m and line.startswith("\t(func"):
+        m = re.match(r"\s*\(func\s+\$([^\s()]+)", line)
+        if m:
             cur = m.group(1)
             funcs[cur] = set()
             if "(export " in line:
                 roots.add(cur)
-            continue
-        m = re.match(r"\t\(start \$(\S+)\)", line)
+        m = re.search(r"\(start\s+\$([^\s()]+)\)", line)
         if m:
             roots.add(m.group(1))
-        m = re.match(r"\t\(elem \(i32\.const -?\d+\)(.*)\)\s*$", line)
-        if m:
-            roots.update(x[1:] for x in m.group(1).split() if x.startswith("$"))
-        m = re.match(r'\t\(export "[^"]*" \(func \$(\S+)\)\)', line)
-        if m:
+        if re.match(r"\s*\(elem\b", line):
+            roots.update(re.findall(r"\$([^\s()]+)", line))
+        for m in re.finditer(r'\(export\s+"[^"]*"\s+\(func\s+\$([^\s()]+)\)\)', line):
             roots.add(m.group(1))
-        m = re.match(r"\t\t+call \$(\S+)", line)
-        if m and cur is not None:
-            funcs[cur].add(m.group(1))
+        if cur is not None:
+            for m in re.finditer(r"\bcall\s+\$([^\s()]+)", line):
+                funcs[cur].add(m.group(1))
     seen, todo = set(), [r for r in roots if r in funcs]
     while todo:
         f = todo.pop()
@@ -169,7 +166,7 @@ def run_equiv(prop, tier, seed, transform_cmd, what, assumptions):
             reach, allf = reachable_functions(fmt)
             _, kept = reachable_functions(t1)
             unnamed = "\t(func (" in fmt or "\t(func\n" in fmt
-            if not unnamed and not n.startswith("index"):
+            if not unnamed and not n.startswith("index") and ("(func" not in fmt or allf):
                 if kept != reach:
                     side_violation(c, "strip/%s/watstrip/removes-exactly-the-unreachable-functions" % n,
                                    {"module": n, "step": "compare the kept function set with independent reachability",
